@@ -29,7 +29,7 @@ def run(ctx, modes=('ws', 'blank', 'ws')):
     me = __import__('vlib.checks.' + PID.lower(), fromlist=['x'])
     progs = []
     for i, (start, fuel, maxout) in enumerate(me.START):
-        progs += sqlprog.programs(ctx, 500 if quick else 5000, '%s_progs_%s' % (PID, start), start=start, fuel=fuel,
+        progs += sqlprog.programs(ctx, 800 if quick else 5000, '%s_progs_%s' % (PID, start), start=start, fuel=fuel,
                                   maxout=maxout, seed=ctx.seed * 3 + i + 1)
     traces, meta = [], []
     unspellable = 0
